@@ -213,6 +213,26 @@ def run(ctx):
                 if labs.get(name) != addr:
                     s2.violate({"src": src}, hex(addr), labs.get(name), f"label {name} after .text is not start + emitted size")
                     break
+        # quoted texts with escaped quotes (also as the last character) over a table that has an entry for the quote
+        qt = "41=A\n42=B\n27='\n2d=-\n"
+        with open(os.path.join(tmp, "q.tbl"), "w", encoding="utf-8") as fh:
+            fh.write(qt)
+        qmap = {"A": 0x41, "B": 0x42, "'": 0x27, "-": 0x2d}
+        for i in range(12 if tier == "quick" else 120):
+            pieces = [rng.choice(["A", "B", "-", "\\'", "\\'", "AB"]) for _ in range(rng.randrange(1, 5))]
+            if i % 2 == 0:
+                pieces.append("\\'")
+            body = "".join(pieces)
+            exp = bytes(qmap[c] for c in body if c in qmap)
+            src = f"*=0x008000\n.table 'q.tbl'\n.text '{body}'\nl1:\n.dw l1\n"
+            r = impl.assemble(src, cwd=tmp)
+            s2.cases += 1
+            s2.count("escaped-quote")
+            data = b"".join(b for _, b in r["blocks"]) if r["status"] == "ok" else None
+            want = exp + (0x8000 + len(exp)).to_bytes(2, "little")
+            if data != want:
+                s2.violate({"src": src, "q.tbl": qt}, want.hex(), data.hex() if data is not None else (r.get("exc") or r.get("error")),
+                           ".text with escaped quotes: bytes / following label differ from the table encoding of the quoted text")
         s2.sample({"shape": ".table a / .text / { .text } / { .table b / .text } / .text"})
         return [s, s2]
     finally:
